@@ -1621,6 +1621,76 @@ def dataseg_tie(ctx, cases, stats):
                            "expected": c["expect"]})
 
 
+# ------------------------------------------------------------------------------------------------
+# Projects with several entry points: every emitted launcher is run (wasm and TS)
+# ------------------------------------------------------------------------------------------------
+
+def multientry_cases():
+    """Deterministic: 2, 3 and 4 entry points; prefix-related module names; a dotted module; one entry
+    importing a class of another entry; a non-entry library module. Each entry's Main.main prints its
+    own lines: launcher i must print exactly those."""
+    def mod(name, lines, extra="", imports=""):
+        body = "\n".join(f'    Process.println("{l}");' for l in lines[:-1]) + f'\n    Process.println("{lines[-1]}")'
+        return imports + extra + "class Main {\n  function main(): unit = {\n" + body + "\n  }\n}\n"
+    lib = "class Util { function tag(s: Str): Str = \"[\" :: s :: \"]\" }\n"
+    helper = "class Helper { function twice(s: Str): Str = s :: s }\n"
+    projects = []
+    # 2 entries, prefix-related names
+    projects.append(({"Report": mod("Report", ["report 1", "report 2"]), "ReportAll": mod("ReportAll", ["all 1"])},
+                     ["Report", "ReportAll"], {"Report": ["report 1", "report 2"], "ReportAll": ["all 1"]}))
+    # 3 entries: one imports a class of another entry, a dotted module name
+    srcs = {"Rep": mod("Rep", ["rep"], extra=helper),
+            "Report": ("import { Helper } from Rep;\nclass Main {\n  function main(): unit = Process.println(Helper.twice(\"ab\"))\n}\n"),
+            "audit.Log": mod("audit.Log", ["log a", "log b", "log c"])}
+    projects.append((srcs, ["Rep", "Report", "audit.Log"], {"Rep": ["rep"], "Report": ["abab"], "audit.Log": ["log a", "log b", "log c"]}))
+    # 4 entries + a library module; the entry order is not the alphabetical one
+    srcs = {"lib.Util": lib,
+            "Zeta": mod("Zeta", ["zeta"]),
+            "Alpha": ("import { Util } from lib.Util;\nclass Main {\n  function main(): unit = Process.println(Util.tag(\"alpha\"))\n}\n"),
+            "Alpha2": mod("Alpha2", ["alpha2 x", "alpha2 y"]),
+            "a.b.Deep": mod("a.b.Deep", ["deep"])}
+    projects.append((srcs, ["Zeta", "Alpha", "a.b.Deep", "Alpha2"],
+                     {"Zeta": ["zeta"], "Alpha": ["[alpha]"], "a.b.Deep": ["deep"], "Alpha2": ["alpha2 x", "alpha2 y"]}))
+    # the same 2-entry project with the entries listed the other way round
+    projects.append(({"Report": mod("Report", ["report 1", "report 2"]), "ReportAll": mod("ReportAll", ["all 1"])},
+                     ["ReportAll", "Report"], {"Report": ["report 1", "report 2"], "ReportAll": ["all 1"]}))
+    return projects
+
+
+def run_multientry(ctx, stats):
+    projects = multientry_cases()
+    lines = ["multientry " + json.dumps({"sources": srcs, "entries": entries}) for srcs, entries, _ in projects]
+    rc, impl, err = common.run_exec(common.harness_bin(PROP), [], lines)
+    rc2, model, err2 = common.run_exec(common.driver_bin(PROP), [], ["launcher " + " ".join(entries) for _, entries, _ in projects])
+    for k, (srcs, entries, expect) in enumerate(projects):
+        stats["multientry"] = stats.get("multientry", 0) + 1
+        payload = {"kind": "multientry", "sources": srcs, "entries": entries, "expected": expect}
+        try:
+            r = json.loads(impl[k])
+        except Exception:
+            ctx.violation("multientry protocol: no answer from the harness", {"broken": "multientry", "impl": impl[k:k + 1]}, no_input=True)
+            continue
+        if r.get("compile") != "ok":
+            ctx.violation(f"a project with entry points {entries} is rejected or crashes the compiler: {r.get('compile')} {(r.get('msg') or '')[:300]}",
+                          payload, no_input=(r.get("compile") == "errors"))
+            continue
+        names = model[k].split(" ") if k < len(model) else []
+        for i, (e, run) in enumerate(zip(entries, r["runs"])):
+            payload_i = dict(payload, entry=e, run=run)
+            for leg in ("wasm", "ts"):
+                got = run[leg]
+                if got.get("end") == "no-node":
+                    stats["no_node"] = True
+                    continue
+                if (got.get("lines"), got.get("end")) != (expect[e], "ok"):
+                    ctx.violation(f"launcher of entry point {e} (number {i + 1} of {entries}) on {leg} prints {got.get('lines')} / ends "
+                                  f"{str(got.get('end'))[:160]}; its Main.main prints {expect[e]} / ok", payload_i)
+                    break
+            if i < len(names) and run.get("callee") != names[i]:
+                ctx.violation(f"launcher of entry point {e} calls `{run.get('callee')}`, the model (Model/Launcher.lean) says `{names[i]}`",
+                              dict(payload_i, broken="launcher tie"), no_input=True)
+
+
 def e2e_case(rng):
     k = rng.below(100)
     if k < 14:
@@ -1862,6 +1932,7 @@ def run(ctx):
     if have_exec and not ctx.violations:
         uni = unicode_cases()
         dataseg_tie(ctx, uni + tour_cases(), stats)
+        run_multientry(ctx, stats)
         e2e = (tour_cases() + uni + vec_model_tie(ctx, boundary_cases(), stats) + c03_permutation_sources() +
                [e2e_case(rng.fork()) for _ in range(n_e2e)])
         # one dedicated probe per open finding
